@@ -29,6 +29,10 @@ func main() {
 		sysMain(args)
 	case "lin":
 		linMain(args)
+	case "crash":
+		crashMain(args)
+	case "crash-child":
+		crashChildMain(args)
 	default:
 		fmt.Fprintln(os.Stderr, "unknown sub-command", cmd)
 		os.Exit(2)
